@@ -1,6 +1,4 @@
 import BM.Props.C01
-import BM.Props.C04
-import BM.Props.C09
 import BM.Spec.More
 /-
   The oracles on the model.  An oracle (BM/Spec) is evaluated on the *implementation's* output; a case
@@ -32,22 +30,5 @@ theorem oracleC01_model (p : Policy) (input : Bytes) (hp : PlainOn p.ensureInit 
     | comment => rw [htt] at htag; rcases htag with (h | h) | h <;> exact absurd h (by decide)
     | doctype => rw [htt] at htag; rcases htag with (h | h) | h <;> exact absurd h (by decide)
   · rw [hc]; exact hac
-
-/-- `oracleC04strict` holds of the model's output for every input -/
-theorem oracleC04strict_model (input : Bytes) : oracleC04strict (strictPolicy.sanitizeCore input) = true := by
-  unfold oracleC04strict
-  rw [List.all_eq_true]
-  intro c hc
-  have := C04_strict_no_markup input c hc
-  simp [this.1, this.2]
-
-/-- `oracleC09` holds of the model's output: every policy without AllowUnsafe, every input none of whose
-    raw-text tags the policy allows -/
-theorem oracleC09_model (p : Policy) (input : Bytes) (hp : PlainOn p.ensureInit (tokenize input)) :
-    oracleC09 input (p.sanitizeCore input) = true := by
-  unfold oracleC09
-  cases hwn : wellNested (tokenize input) with
-  | false => rfl
-  | true => simp [C09_bytesC_on p input hp hwn]
 
 end BM.Props
